@@ -120,10 +120,10 @@ func CmdCheck(prop, tier string) int {
 		fmt.Fprintln(os.Stderr, "contracts:", err)
 		return 2
 	}
-	quickT, fullT := 4, 25
+	quickT, fullT := 6, 120 // stage 1: z3 5.1.0 alone; stage 2: race of the three solvers
 	cross := false
 	if tier == "thorough" {
-		quickT, fullT = 10, 120
+		quickT, fullT = 10, 400
 		cross = true
 	}
 	var keys []string
@@ -208,7 +208,7 @@ func CmdCheck(prop, tier string) int {
 		}
 		// vacuity guards
 		vac["functions"]++
-		if fr.Exec.CheckSat(fr.EntryPC, quickT) == VSat {
+		if fr.Exec.CheckSat(fr.EntryPC, quickT) != VUnsat { // only a refuted precondition is vacuity
 			vac["pre_reachable"]++
 		} else {
 			nObl++
@@ -220,7 +220,7 @@ func CmdCheck(prop, tier string) int {
 			if i > 8 {
 				break
 			}
-			if fr.Exec.CheckSat(rp, quickT) == VSat {
+			if fr.Exec.CheckSat(rp, quickT) != VUnsat {
 				reach = true
 				break
 			}
